@@ -24,6 +24,7 @@ import (
 	"time"
 
 	"github.com/pion/dtls/v3/internal/ciphersuite/types"
+	dtlsstate "github.com/pion/dtls/v3/internal/state"
 	"github.com/pion/dtls/v3/pkg/crypto/elliptic"
 	"github.com/pion/dtls/v3/pkg/protocol"
 	"github.com/pion/dtls/v3/pkg/protocol/alert"
@@ -311,6 +312,30 @@ func c04Muts() []c04Mut { //nolint:maintidx,cyclop
 
 			return hit
 		})},
+		{Name: "ch_narrow_alpn", Dir: "c2s", HType: tCH, Fn: c04CH(func(_ c04Variant, m *handshake.MessageClientHello) bool {
+			var hit bool
+			m.Extensions, hit = c04AlterExt(m.Extensions, extension.TypeALPN, func(e extension.Value) extension.Value {
+				if a, ok := e.(*extension.ALPNOffer); ok && len(a.Protocols) >= 2 {
+					return &extension.ALPNOffer{Protocols: []string{a.Protocols[len(a.Protocols)-1]}}
+				}
+
+				return nil
+			})
+
+			return hit
+		})},
+		{Name: "ch_narrow_groups", Dir: "c2s", HType: tCH, Fn: c04CH(func(_ c04Variant, m *handshake.MessageClientHello) bool {
+			var hit bool
+			m.Extensions, hit = c04AlterExt(m.Extensions, extension.TypeSupportedGroups, func(e extension.Value) extension.Value {
+				if a, ok := e.(*extension.SupportedGroups); ok && len(a.Groups) >= 2 {
+					return &extension.SupportedGroups{Groups: []elliptic.Curve{a.Groups[len(a.Groups)-1]}}
+				}
+
+				return nil
+			})
+
+			return hit
+		})},
 		{Name: "ch_alter_srtp", Dir: "c2s", HType: tCH, Fn: c04CH(func(_ c04Variant, m *handshake.MessageClientHello) bool {
 			var hit bool
 			m.Extensions, hit = c04AlterExt(m.Extensions, extension.TypeUseSRTP, func(e extension.Value) extension.Value {
@@ -390,23 +415,6 @@ func c04Muts() []c04Mut { //nolint:maintidx,cyclop
 		})},
 		{Name: "ch_version_10", Dir: "c2s", HType: tCH, Fn: c04CH(func(_ c04Variant, m *handshake.MessageClientHello) bool {
 			m.Version = protocol.Version1_0
-
-			return true
-		})},
-		// only the FIRST (cookie-less) ClientHello: outside the Finished transcript by RFC 6347 4.2.1
-		{Name: "ch0_swap_suites", Dir: "c2s", HType: tCH, Occ: 1, Fn: c04CH(func(_ c04Variant, m *handshake.MessageClientHello) bool {
-			if len(m.CipherSuiteIDs) < 2 {
-				return false
-			}
-			m.CipherSuiteIDs[0], m.CipherSuiteIDs[1] = m.CipherSuiteIDs[1], m.CipherSuiteIDs[0]
-
-			return true
-		})},
-		{Name: "ch1_swap_suites", Dir: "c2s", HType: tCH, Occ: 2, Fn: c04CH(func(_ c04Variant, m *handshake.MessageClientHello) bool {
-			if len(m.CipherSuiteIDs) < 2 {
-				return false
-			}
-			m.CipherSuiteIDs[0], m.CipherSuiteIDs[1] = m.CipherSuiteIDs[1], m.CipherSuiteIDs[0]
 
 			return true
 		})},
@@ -710,6 +718,13 @@ type c04Obs struct {
 	BaseSuite int            `json:"base_suite"` // what an undisturbed handshake of the variant negotiates
 	BaseALPN  string         `json:"base_alpn"`
 	BaseSRTP  int            `json:"base_srtp"`
+	CEMS      int            `json:"cems"` // DTLS 1.2, side succeeded: extended master secret in use (0/1), -1 unknown
+	SEMS      int            `json:"sems"`
+	CCurve    int            `json:"ccurve"` // DTLS 1.2, side succeeded: key-exchange group, -1 unknown
+	SCurve    int            `json:"scurve"`
+	BaseEMS   int            `json:"base_ems"`
+	BaseCurve int            `json:"base_curve"`
+	Target    string         `json:"target"` // ClientHello mutations: "" = every copy, ch1 = only the cookie-less one, ch2 = only the one with the cookie
 	Wire      []c03WireAlert `json:"wire_alerts"`
 	Delivered int            `json:"delivered"`
 	Storm     bool           `json:"storm"`          // more than c04MaxDatagrams datagrams: endpoints answer each other without pause
@@ -876,7 +891,8 @@ func c04Pump(lab *vLab, obs *c04Obs, v c04Variant, mut *c04Mut, next *int, done 
 
 func runC04(t *testing.T, v c04Variant, mut *c04Mut) c04Obs {
 	t.Helper()
-	obs := c04Obs{Kind: "c04", Variant: v, CAlert: -1, SAlert: -1, CSuite: -1, SSuite: -1, CSRTP: -1, SSRTP: -1}
+	obs := c04Obs{Kind: "c04", Variant: v, CAlert: -1, SAlert: -1, CSuite: -1, SSuite: -1, CSRTP: -1, SSRTP: -1,
+		CEMS: -1, SEMS: -1, CCurve: -1, SCurve: -1}
 	if mut != nil {
 		obs.Mut, obs.Dir, obs.HType = mut.Name, mut.Dir, int(mut.HType)
 	}
@@ -932,6 +948,18 @@ func runC04(t *testing.T, v c04Variant, mut *c04Mut) c04Obs {
 		if p.handshakeDone() && p.Err == nil {
 			if st, ok := p.Conn.ConnectionState(); ok {
 				prof, _ := p.Conn.SelectedSRTPProtectionProfile()
+				ems, curve := -1, -1
+				if st12, err := dtlsstate.As12(p.Conn.state); err == nil {
+					ems, curve = 0, int(st12.NamedCurve)
+					if st12.ExtendedMasterSecret {
+						ems = 1
+					}
+				}
+				if p.Name == "client" {
+					obs.CEMS, obs.CCurve = ems, curve
+				} else {
+					obs.SEMS, obs.SCurve = ems, curve
+				}
 				if p.Name == "client" {
 					obs.CSuite, obs.CALPN, obs.CSRTP = int(st.CipherSuiteID), st.NegotiatedProtocol, int(prof)
 				} else {
@@ -960,7 +988,21 @@ func TestVerifC04(t *testing.T) {
 		var base c04Obs
 		vBubble(t, func(t *testing.T) { base = runC04(t, v, nil) })
 		base.BaseSuite, base.BaseALPN, base.BaseSRTP = base.CSuite, base.CALPN, base.CSRTP
+		base.BaseEMS, base.BaseCurve = base.SEMS, base.SCurve
 		out.emit(base)
+		// every ClientHello mutation has three targets: every copy, only the first (cookie-less) ClientHello,
+		// only the second (the one the Finished messages cover)
+		var all []c04Mut
+		for _, m := range muts {
+			all = append(all, m)
+			if m.HType == handshake.TypeClientHello && m.Occ == 0 && !v.Resumed {
+				m1, m2 := m, m
+				m1.Name, m1.Occ = m.Name+"@ch1", 1
+				m2.Name, m2.Occ = m.Name+"@ch2", 2
+				all = append(all, m1, m2)
+			}
+		}
+		muts := all
 		for i := range muts {
 			m := &muts[i]
 			is13 := len(m.Name) > 4 && (m.Name[:4] == "ch13" || m.Name[:4] == "sh13")
@@ -979,6 +1021,10 @@ func TestVerifC04(t *testing.T) {
 				continue // the variant has no such message / field
 			}
 			obs.BaseSuite, obs.BaseALPN, obs.BaseSRTP = base.CSuite, base.CALPN, base.CSRTP
+			obs.BaseEMS, obs.BaseCurve = base.SEMS, base.SCurve
+			if at := strings.Index(m.Name, "@"); at >= 0 {
+				obs.Target = m.Name[at+1:]
+			}
 			out.emit(obs)
 		}
 	}
